@@ -92,8 +92,11 @@ Section OwnProofs.
         * rewrite Hs. rewrite <- Ho. rewrite <- app_assoc. split; [lia|]. auto.
   Qed.
 
-  Ltac not_both Hl :=
-    let H := fresh in intros H; rewrite (Hl H) in *; congruence.
+  Ltac no0 := let Hx := fresh in intros [Hx|[Hx|Hx]]; discriminate Hx.
+  Ltac no1 := let Hx := fresh in let n := fresh in intros [Hx|[[n Hx]|Hx]]; discriminate Hx.
+  Ltac noT := let Hx := fresh in let n := fresh in intros n Hx; discriminate Hx.
+  Ltac noF := let Hx := fresh in intros [Hx|Hx]; discriminate Hx.
+  Ltac proj_all := cbn [bset b_pos b_buf b_out b_seen b_inq b_lock].
 
   Theorem OInv_step : forall s i, OInv s -> OInv (sys_step bsh (nat * bpc) (own_step false BatchBuf) s i).
   Proof.
@@ -104,82 +107,73 @@ Section OwnProofs.
       unfold own_step. cbn [fst snd]. unfold main_own.
       destruct p0; cbn [upd_nth].
       + (* BIdle: batchMu.Lock() *)
-        destruct (b_lock sh) eqn:El; cbn [fst snd]; [apply OInv_intro; auto; rewrite El; auto|].
-        apply OInv_intro; cbn [bset b_pos b_buf b_out b_seen b_inq b_lock]; auto.
-        * intros Hc. specialize (H5 Hc). congruence.
-        * intros [Hx|Hx]; discriminate Hx.
-      + (* BHave *)
+        destruct (b_lock sh) eqn:El; cbn [fst snd].
+        * apply OInv_intro; try assumption; rewrite El; assumption.
+        * apply OInv_intro; proj_all;
+            [exact H1 | exact H2 | exact H3 | intros _; reflexivity
+            | intros Hc; specialize (H5 Hc); congruence | exact H6 | noF].
+      + (* BHave: inside the critical section *)
         assert (Hl : b_lock sh = Some 0%nat) by (apply H4; left; reflexivity).
         assert (Hn1 : ~ incs1 p1) by (intros Hc; specialize (H5 Hc); congruence).
         destruct (b_inq sh) as [|d q] eqn:Eq; cbn [fst snd].
-        * apply OInv_intro; cbn [bset b_pos b_buf b_out b_seen b_inq b_lock]; auto.
-          -- lia.
-          -- cbn [firstn]. rewrite app_nil_r. exact H2.
-          -- intros _. exact Hl.
-          -- intros Hc. contradiction.
-          -- intros n Hc. exfalso. apply Hn1. right; left. now exists n.
+        * apply OInv_intro; proj_all;
+            [ lia | cbn [firstn]; rewrite app_nil_r; exact H2 | rewrite H3; reflexivity
+            | intros _; exact Hl | intros Hc; contradiction
+            | intros n Hc; exfalso; apply Hn1; right; left; now exists n
+            | intros _; split; reflexivity ].
         * destruct (frame_one_inv d sh H1 H2) as (F1 & F2 & F3 & F4 & F5).
-          apply OInv_intro; auto.
-          -- rewrite F3, F4, Eq. cbn [tl]. rewrite H3. now rewrite <- app_assoc.
-          -- intros _. now rewrite F5.
-          -- intros Hc. contradiction.
-          -- intros n Hc. exfalso. apply Hn1. right; left. now exists n.
-          -- intros [Hx|Hx]; discriminate Hx.
-      + (* a main loop is never in BTaken *) cbn [fst snd]. apply OInv_intro; auto.
+          apply OInv_intro;
+            [ exact F1 | rewrite F3; exact F2
+            | rewrite F3, F4, Eq; cbn [tl]; rewrite H3, <- app_assoc; reflexivity
+            | intros _; rewrite F5; exact Hl | intros Hc; contradiction
+            | intros n Hc; exfalso; apply Hn1; right; left; now exists n | noF ].
+      + cbn [fst snd]. apply OInv_intro; assumption.
       + (* BUnlock *)
         assert (Hl : b_lock sh = Some 0%nat) by (apply H4; right; left; reflexivity).
         assert (Hn1 : ~ incs1 p1) by (intros Hc; specialize (H5 Hc); congruence).
-        cbn [fst snd]. apply OInv_intro; cbn [bset b_pos b_buf b_out b_seen b_inq b_lock]; auto.
-        * intros [Hx|[Hx|Hx]]; discriminate Hx.
-        * intros Hc. contradiction.
-        * intros [Hx|Hx]; discriminate Hx.
+        cbn [fst snd]. apply OInv_intro; proj_all;
+          [exact H1 | exact H2 | exact H3 | no0 | intros Hc; contradiction | exact H6 | noF].
       + (* BFinal *)
         assert (Hl : b_lock sh = Some 0%nat) by (apply H4; right; right; reflexivity).
         assert (Hn1 : ~ incs1 p1) by (intros Hc; specialize (H5 Hc); congruence).
-        cbn [fst snd]. apply OInv_intro; cbn [bset b_pos b_buf b_out b_seen b_inq b_lock]; auto.
-        * intros [Hx|[Hx|Hx]]; discriminate Hx.
-        * intros Hc. contradiction.
-        * intros _. apply H7. left; reflexivity.
-      + (* BDone *) cbn [fst snd]. apply OInv_intro; auto.
+        cbn [fst snd]. apply OInv_intro; proj_all;
+          [exact H1 | exact H2 | exact H3 | no0 | intros Hc; contradiction | exact H6
+          | intros _; apply H7; left; reflexivity].
+      + cbn [fst snd]. apply OInv_intro; assumption.
     - (* ticker *)
       unfold own_step. cbn [fst snd]. unfold tick_own.
       destruct p1; cbn [upd_nth].
-      + destruct (b_lock sh) eqn:El; cbn [fst snd]; [apply OInv_intro; auto; rewrite El; auto|].
-        apply OInv_intro; cbn [bset b_pos b_buf b_out b_seen b_inq b_lock]; auto.
-        * intros Hc. specialize (H4 Hc). congruence.
-        * intros n Hx; discriminate Hx.
+      + destruct (b_lock sh) eqn:El; cbn [fst snd].
+        * apply OInv_intro; try assumption; rewrite El; assumption.
+        * apply OInv_intro; proj_all;
+            [exact H1 | exact H2 | exact H3 | intros Hc; specialize (H4 Hc); congruence
+            | intros _; reflexivity | noT | exact H7].
       + (* BHave: take the slice, keep the lock *)
-        cbn [fst snd]. apply OInv_intro; auto.
-        * intros _. apply H5. left; reflexivity.
-        * intros n Hx. injection Hx as <-. reflexivity.
-      + (* BTaken n: the Write returns *)
+        cbn [fst snd]. apply OInv_intro;
+          [exact H1 | exact H2 | exact H3 | exact H4 | intros _; apply H5; left; reflexivity
+          | intros n Hx; injection Hx as <-; reflexivity | exact H7].
+      + (* BTaken n: the Write returns, still under the lock *)
         assert (Hl : b_lock sh = Some 1%nat) by (apply H5; right; left; now exists n).
         assert (Hn0 : ~ incs0 p0) by (intros Hc; specialize (H4 Hc); congruence).
         rewrite (H6 n eq_refl). cbn [fst snd].
-        apply OInv_intro; cbn [bset b_pos b_buf b_out b_seen b_inq b_lock]; auto.
-        * lia.
-        * cbn [firstn]. rewrite app_nil_r. exact H2.
-        * intros _. exact Hl.
-        * intros n' Hx; discriminate Hx.
-        * intros Hc. destruct (H7 Hc) as [Hi _]. auto.
-      + assert (Hl : b_lock sh = Some 1%nat) by (apply H5; right; right; reflexivity).
+        apply OInv_intro; proj_all;
+          [ lia | cbn [firstn]; rewrite app_nil_r; exact H2 | exact H3 | intros Hc; contradiction
+          | intros _; exact Hl | noT
+          | intros Hc; destruct (H7 Hc) as [Hi _]; split; [exact Hi|reflexivity] ].
+      + (* BUnlock *)
+        assert (Hl : b_lock sh = Some 1%nat) by (apply H5; right; right; reflexivity).
         assert (Hn0 : ~ incs0 p0) by (intros Hc; specialize (H4 Hc); congruence).
-        cbn [fst snd]. apply OInv_intro; cbn [bset b_pos b_buf b_out b_seen b_inq b_lock]; auto.
-        * intros Hc. contradiction.
-        * intros [Hx|[[n Hx]|Hx]]; discriminate Hx.
-        * intros n Hx; discriminate Hx.
-      + cbn [fst snd]. apply OInv_intro; auto.
-      + cbn [fst snd]. apply OInv_intro; auto.
-    - destruct i; cbn [nth_error]; apply OInv_intro; auto.
+        cbn [fst snd]. apply OInv_intro; proj_all;
+          [exact H1 | exact H2 | exact H3 | intros Hc; contradiction | no1 | noT | exact H7].
+      + cbn [fst snd]. apply OInv_intro; assumption.
+      + cbn [fst snd]. apply OInv_intro; assumption.
+    - destruct i; cbn [nth_error]; apply OInv_intro; assumption.
   Qed.
 
   Lemma OInv_init : OInv (own_init all).
   Proof.
-    unfold own_init. apply OInv_intro; cbn [b_pos b_buf b_out b_seen b_inq b_lock length firstn app]; auto.
-    - intros [Hx|[Hx|Hx]]; discriminate Hx.
-    - intros [Hx|[[n Hx]|Hx]]; discriminate Hx.
-    - intros n Hx; discriminate Hx.
-    - intros [Hx|Hx]; discriminate Hx.
+    unfold own_init. apply OInv_intro; cbn [b_pos b_buf b_out b_seen b_inq b_lock length firstn app];
+      [lia | reflexivity | reflexivity | no0 | no1 | noT | noF].
   Qed.
 
   Theorem own_all_schedules (sched : list nat) :
